@@ -29,15 +29,23 @@ type rootKey struct{}
 
 // scripted back-off
 type scriptBO struct {
-	durs []uint64
-	idx  int
+	durs  []uint64
+	idx   int
+	calls int
+	s     *sys
 }
 
+// NextBackOff returns the scripted duration minus a fraction of a millisecond that shrinks with every call: timers
+// armed for the same millisecond then fire in creation order, which is the order the model uses, and "deadline <=
+// clock" in whole milliseconds is unchanged (the controller only advances by whole milliseconds).
 func (b *scriptBO) NextBackOff() time.Duration {
 	i := b.idx
 	b.idx++
 	if i < len(b.durs) {
-		return time.Duration(b.durs[i]) * time.Millisecond
+		b.calls++
+		d := time.Duration(b.durs[i])*time.Millisecond - time.Duration(400-b.calls%400)*time.Microsecond
+		b.s.deadlines = append(b.s.deadlines, time.Now().Add(d))
+		return d
 	}
 	return cbackoff.Stop
 }
@@ -75,6 +83,9 @@ type sys struct {
 	chans   []<-chan struct{}
 	cblog   []uint64
 	cbseen  int
+	// deadlines of every retry timer ever armed: the clock is advanced from deadline to deadline so that the
+	// callbacks of timers that expire during one advance arrive at their gate one after the other
+	deadlines []time.Time
 }
 
 func errOf(code uint64) error {
@@ -109,7 +120,7 @@ func newSys(w *hist.W, cfg []uint64) *sys {
 		opts = append(opts, routine.WithExitCb(func(err error) { s.cblog = append(s.cblog, codeOf(err)) }))
 	}
 	if cfg[3] == 1 {
-		opts = append(opts, routine.WithBackoff(&scriptBO{durs: cfg[5:]}))
+		opts = append(opts, routine.WithBackoff(&scriptBO{durs: cfg[5:], s: s}))
 	}
 	if s.variant {
 		var cmp func(a, b uint64) bool
@@ -406,7 +417,24 @@ func (s *sys) exec(ev []uint64) (obs []uint64, ok bool) {
 		a.Data.(*idata).left = true
 		s.c.Step(a)
 	case 11:
-		time.Sleep(time.Duration(ev[1]) * time.Millisecond)
+		target := time.Now().Add(time.Duration(ev[1]) * time.Millisecond)
+		for {
+			var next time.Time
+			now := time.Now()
+			for _, d := range s.deadlines {
+				if d.After(now) && !d.After(target) && (next.IsZero() || d.Before(next)) {
+					next = d
+				}
+			}
+			if next.IsZero() {
+				break
+			}
+			time.Sleep(next.Sub(now))
+			synctest.Wait()
+		}
+		if rest := target.Sub(time.Now()); rest > 0 {
+			time.Sleep(rest)
+		}
 		synctest.Wait()
 	case 12:
 		ts := s.parkedTimers()
